@@ -71,6 +71,8 @@ def reading_period(
         index = len(candles) - 1
     elif not valid_index(index, len(candles)):
         return False
+    elif index < 0:
+        index += len(candles)
 
     if index - period < 0:
         return False
